@@ -29,6 +29,7 @@ def elastic_kernels(x, y, mindist, poisson):
 
 @register
 class GreensFunc2D(Contract):
+    functional = True
     target = VC + ":greens_func_2d"
 
     def configs(self, tier):
@@ -89,6 +90,7 @@ class _Predict2DSpec:
 
 @register
 class Predict2DNumpy(Contract):
+    functional = True
     target = VC + ":predict_2d_numpy"
     stubs = {"greens_func_2d": VC + ":greens_func_2d"}
 
@@ -278,6 +280,7 @@ class VectorSplinePredict(Contract):
 
 @register
 class VectorSplineJacobian(Contract):
+    functional = True
     target = VC + ":VectorSpline2D.jacobian"
     stubs = {"n_1d_arrays": BU + ":n_1d_arrays", "jacobian_2d_numpy": VC + ":jacobian_2d_numpy"}
     inline = ("parse_engine",)
